@@ -65,6 +65,8 @@ def plan_message_faults(base, clean, reading, tier, rng, directed=True):
         out.extend(faults.directed_substitutions(sp, enc, clean, hexb, all_values=(tier == "thorough")))
     out.extend(faults.numeral_faults(sp, enc))
     out.extend(faults.typed_token_faults(sp, enc))
+    if hexb:
+        out.extend(faults.hex_bitmap_pair_faults(sp))
     out.extend(faults.splice_faults(clean, sp, enc))
     out.extend(faults.consistent_edits(clean, sp, enc, cfg, hexb, rng))
     nrand = 40 if tier == "quick" else 200
@@ -82,6 +84,18 @@ def plan_message_faults(base, clean, reading, tier, rng, directed=True):
                 out.append([{"kind": "truncate", "at": mk + d, "cls": "truncate_at_boundary"}])
     out.append([{"kind": "extend", "hex": "20", "cls": "extend_one"}])
     out.append([{"kind": "extend", "hex": "0000", "cls": "extend_two"}])
+    # line-ending and filler bytes appended to the message (leftover bytes must be refused) ...
+    for hx in ("0a", "0d", "0d0a", "00", "40", "ff", "1a"):
+        out.append([{"kind": "extend", "hex": hx, "cls": "extend_line_ending_or_filler"}])
+    # ... and the same bytes as the LAST content byte of the last element (still well-framed when that
+    # element is untyped text or ICC data: a decoder that trims its input must not refuse or shorten it)
+    if sp["elems"]:
+        last = sp["elems"][-1]
+        d0, d1 = last["data"]
+        if d1 > d0 and d1 == len(clean):
+            for v in (0x0A, 0x0D, 0x20, 0x00, 0x40, 0x25, 0x15):
+                if clean[d1 - 1] != v:
+                    out.append([{"kind": "substitute", "off": d1 - 1, "val": v, "cls": "last_content_byte"}])
     return out
 
 
